@@ -43,7 +43,11 @@ BOUNDED_PARTS = {
     'C06': ['c06_time_slice'],
     'C07': ['c07_rejected_leaves_no_trace'],
     'C08': ['c08_accumulative'],
+    'C09': ['c09_snapshot_roundtrip'],
+    'C10': ['c10_interaction_roundtrip'],
+    'C11': ['c11_json_roundtrip'],
     'C16': ['c16_conversions'],
+    'C18': ['c18_reader_noise_and_compaction'],
     'C17': ['c17_statistics'],
     'C19': ['c19_blocked_and_frozen'],
 }
@@ -51,6 +55,7 @@ BOUNDED_PARTS = {
 LEVELS = {
     'C01': 'other', 'C03': 'other', 'C04': 'other', 'C05': 'other', 'C07': 'other', 'C08': 'other',
     'C02': 'exploration', 'C06': 'exploration', 'C16': 'exploration', 'C17': 'exploration', 'C19': 'exploration',
+    'C09': 'exploration', 'C10': 'exploration', 'C11': 'exploration', 'C18': 'exploration',
 }
 
 EXPLANATIONS = {
